@@ -4,6 +4,7 @@ package an
 
 import (
 	"fmt"
+	"go/constant"
 	"go/token"
 	"go/types"
 	"os"
@@ -239,4 +240,31 @@ func IsWrapper(fn *ssa.Function) bool {
 	s := fn.Synthetic
 	return strings.HasPrefix(s, "wrapper for") || strings.HasPrefix(s, "bound method wrapper") ||
 		strings.HasPrefix(s, "thunk for")
+}
+
+// ConstInt returns the integer value of the named constant of package pkg
+// (path relative to internal/ or absolute); ok is false if it does not exist.
+func (p *Prog) ConstInt(pkg, name string) (v int64, ok bool) {
+	pk := p.Pkg(pkg)
+	if pk == nil {
+		return 0, false
+	}
+	c, isConst := pk.Types.Scope().Lookup(name).(*types.Const)
+	if !isConst {
+		return 0, false
+	}
+	return constant.Int64Val(constant.ToInt(c.Val()))
+}
+
+// ConstStr returns the string value of the named constant of package pkg.
+func (p *Prog) ConstStr(pkg, name string) (v string, ok bool) {
+	pk := p.Pkg(pkg)
+	if pk == nil {
+		return "", false
+	}
+	c, isConst := pk.Types.Scope().Lookup(name).(*types.Const)
+	if !isConst || c.Val().Kind() != constant.String {
+		return "", false
+	}
+	return constant.StringVal(c.Val()), true
 }
